@@ -71,7 +71,7 @@ func GenEdit(t *rapid.T, in *Tree, label string, names []string) (*Tree, string)
 	}
 	isFile := func(n *Node) bool { return n.Kind == KFile && n.LinkTo == "" }
 	desc := ""
-	op := rapid.IntRange(0, 15).Draw(t, label+".op")
+	op := rapid.IntRange(0, 17).Draw(t, label+".op")
 	switch op {
 	case 0: // rewrite same size
 		if n := pick(".n", isFile); n != nil {
@@ -260,6 +260,73 @@ func GenEdit(t *rapid.T, in *Tree, label string, names []string) (*Tree, string)
 		if n := pick(".n", func(n *Node) bool { return isFile(n) && n.Size > 0 }); n != nil {
 			n.Seed += 15485863
 			desc = "rewrite-keep-identity " + n.Path
+		}
+	case 16, 17: // extended attributes only (identity untouched): set, change or drop one
+		pred := func(n *Node) bool { return (n.Kind == KFile && n.LinkTo == "") || n.Kind == KDir }
+		if op == 17 {
+			// ... on the first name of a link group, and another name of the group goes away
+			pred = func(n *Node) bool {
+				if n.Kind != KFile || n.LinkTo != "" {
+					return false
+				}
+				for i := range tr.Nodes {
+					if tr.Nodes[i].LinkTo == n.Path {
+						return true
+					}
+				}
+				return false
+			}
+		}
+		if n := pick(".n", pred); n != nil {
+			x := map[string][]byte{}
+			for k, v := range n.Xattrs {
+				x[k] = v
+			}
+			// (security.* values have a format of their own: left alone)
+			free := func(key string) bool { return strings.HasPrefix(key, "user.") || strings.HasPrefix(key, "trusted.") }
+			nfree := 0
+			for key := range x {
+				if free(key) {
+					nfree++
+				}
+			}
+			switch k := rapid.IntRange(0, 2).Draw(t, label+".xop"); {
+			case k == 0 && nfree > 0:
+				for key := range x {
+					if free(key) {
+						delete(x, key)
+					}
+				}
+			case k == 1 && nfree > 0:
+				for key := range x {
+					if free(key) {
+						if v := append([]byte{}, x[key]...); len(v) > 1000 {
+							v[0] ^= 1 // (values may be as long as the kernel allows)
+							x[key] = v
+						} else {
+							x[key] = append(v, '+')
+						}
+					}
+				}
+			default:
+				x["user.e"] = []byte("edit")
+			}
+			if len(x) == 0 {
+				x = nil
+			}
+			n.Xattrs = x
+			desc = "xattr-only " + n.Path
+			if op == 17 {
+				first := n.Path
+				for i := range tr.Nodes {
+					if tr.Nodes[i].LinkTo == first {
+						gone := tr.Nodes[i].Path
+						tr.removeSubtree(gone)
+						desc += " and delete-member " + gone
+						break
+					}
+				}
+			}
 		}
 	}
 	tr.Normalize()
